@@ -1,7 +1,7 @@
 import TongoModel.CellOrd
 /-! The read side of boc.Cell (cursor over bits and refs, errors when exhausted) and the dictionary codec of
-tlb/hashmap.go as the wallet code uses it: `encodeLabel`/`encodeMap` (only `hml_short` and `hml_long` labels are ever
-written), `loadLabel`/`mapInner` (all three label forms are read). -/
+tlb/hashmap.go's decoding side as the wallet data decoders use it: `loadLabel`/`mapInner` (all three label forms are
+read). The encoder (and the decoder used for the highload payload) is the shared model `TongoModel/Hashmap.lean` (C05). -/
 namespace Tongo
 open Tongo.Bits
 
@@ -53,52 +53,6 @@ def minBitsRequired (n : Nat) : Nat := if n = 0 then 0 else Nat.log2 n + 1
 
 /-- width read by `ReadLimUint(n)` for a Go `int` n: `minBitsRequired(uint64(n))` (a negative n wraps to ≥ 2⁶³ ⇒ 64) -/
 def limUintWidth (n : Int) : Nat := if n < 0 then 64 else minBitsRequired n.toNat
-
-/-! ### writing a dictionary (Hashmap.encodeMap) -/
-
-/-- the label `encodeLabel` derives from the first and the last key: their common prefix, except that the comparison
-stops one bit before the end of the first key (the loop runs `while keyFirst.BitsAvailableForRead() > 0`) -/
-def commonLabel : List Bool → List Bool → List Bool
-  | [], _ => []
-  | [_], _ => []
-  | a :: (a' :: as), b :: bs => if a = b then a :: commonLabel (a' :: as) bs else []
-  | _ :: _ :: _, [] => []   -- reading past the last key: Go returns an error; unreachable for equal-length keys
-
-/-- the label of an interior node: derived from the first key and the LAST key of the list -/
-def edgeLabel {α} (k0 : List Bool) (kvs : List (List Bool × α)) : List Bool :=
-  match kvs.getLast? with
-  | some (kl, _) => commonLabel k0 kl
-  | none => []
-
-/-- bits written by `encodeLabel` for a label within a key space of `keySize` bits -/
-def labelBits (label : List Bool) (keySize : Nat) : List Bool :=
-  if label.length < 8 then
-    [false] ++ (List.replicate label.length true ++ [false]) ++ label          -- hml_short$0 len:(Unary ~n) s
-  else
-    [true, false] ++ natToBits (minBitsRequired keySize) label.length ++ label -- hml_long$10 n:(#<= m) s
-
-/-- `encodeMap` for keys (bit lists of equal length `keySize`, in the order given) and values that are written into
-the leaf cell by `writeVal`. `fuel` ≥ keySize + 1. -/
-def encodeMap (writeVal : CellB → α → Outcome CellB) : (fuel : Nat) → List (List Bool × α) → (keySize : Nat) → Outcome Cell
-  | 0, _, _ => .err "fuel"
-  | fuel + 1, kvs, keySize =>
-    match kvs with
-    | [] => .err "keys or values are empty"
-    | [(k, v)] => do
-      let b ← CellB.empty.write (labelBits k keySize)
-      let b ← writeVal b v
-      pure b.toCell
-    | (k0, _) :: _ :: _ => do
-      let label := edgeLabel k0 kvs
-      let b ← CellB.empty.write (labelBits label keySize)
-      let n := label.length
-      let left := kvs.filterMap fun (k, v) => if (k.drop n).head? = some false then some (k.drop (n + 1), v) else none
-      let right := kvs.filterMap fun (k, v) => if (k.drop n).head? = some true then some (k.drop (n + 1), v) else none
-      let l ← encodeMap writeVal fuel left (keySize - n - 1)
-      let r ← encodeMap writeVal fuel right (keySize - n - 1)
-      let b ← b.addRef l
-      let b ← b.addRef r
-      pure b.toCell
 
 /-! ### reading a dictionary (Hashmap.mapInner) -/
 
